@@ -380,17 +380,28 @@ func (m *Message) ReadFrom(reader io.Reader) (int64, error) {
 	}
 	totalBytesRead += 4
 
+	// the length covers the message type octet, so it is at least 1
+	// (0 would wrap around to a 2^32-1 byte payload)
+	if encodedMessageLength == 0 {
+		return totalBytesRead, ErrInvalidMessageLength
+	}
+
 	err = binary.Read(reader, binary.LittleEndian, &m.Type)
 	if err != nil {
 		return totalBytesRead, err
 	}
 	totalBytesRead += 1
 
-	payload := make([]byte, encodedMessageLength-1)
-	bytesRead, err := io.ReadFull(reader, payload)
-	totalBytesRead += int64(bytesRead)
+	// Read the payload as it arrives: the announced length comes from the
+	// peer and must not size an allocation before the bytes are there.
+	payloadLength := int64(encodedMessageLength) - 1
+	payload, err := io.ReadAll(io.LimitReader(reader, payloadLength))
+	totalBytesRead += int64(len(payload))
 	if err != nil {
 		return totalBytesRead, err
+	}
+	if int64(len(payload)) != payloadLength {
+		return totalBytesRead, io.ErrUnexpectedEOF
 	}
 
 	var unmarshaler encoding.BinaryUnmarshaler
